@@ -131,16 +131,28 @@ impl Model {
             SideImpl::Coll(c) => {
                 let pk = c.pk(o.o.price);
                 c.orders.insert((pk, o.qtime), id);
+                // (the defect twin keeps volume of orphaned orders on its books, so its totals may pass 2^32 on histories that
+                // are valid for the specification: the pinned code would abort there with overflow checks - record that)
+                let mut over = false;
                 match c.volumes.get_mut(&pk) {
                     Some(v) => {
-                        v.0 += o.o.vol;
+                        match v.0.checked_add(o.o.vol) {
+                            Some(x) => v.0 = x,
+                            None => over = true,
+                        }
                         v.1 += 1;
                     }
                     None => {
                         c.volumes.insert(pk, (o.o.vol, 1));
                     }
                 }
-                c.vol += o.o.vol;
+                match c.vol.checked_add(o.o.vol) {
+                    Some(x) => c.vol = x,
+                    None => over = true,
+                }
+                if over {
+                    self.poison("side volume overflow in the key-collision twin");
+                }
             }
         }
     }
